@@ -315,7 +315,7 @@ def main():
         if len(sys.argv) > 2:
             random.Random(1).shuffle(todo)
             todo = todo[:int(sys.argv[2])]
-        with ProcessPoolExecutor(max_workers=14) as pool:
+        with ProcessPoolExecutor(max_workers=9) as pool:
             for k, (mid, res) in enumerate(pool.map(p1, todo)):
                 st[mid] = {'checks': res}
                 if k % 50 == 0:
